@@ -1,10 +1,17 @@
 package apph
 
 import (
+	"bytes"
+	"crypto/sha256"
+	"encoding/hex"
 	"encoding/json"
 	"fmt"
+	"strings"
 
 	"github.com/Oneledger/protocol/action"
+	agov "github.com/Oneledger/protocol/action/governance"
+	"github.com/Oneledger/protocol/data/balance"
+	"github.com/Oneledger/protocol/data/governance"
 	"github.com/Oneledger/protocol/data/keys"
 	"github.com/Oneledger/protocol/serialize"
 
@@ -14,7 +21,21 @@ import (
 // Mutant classes of C04: single-field mutations of a well-formed signed transaction. Every
 // mutant is re-serialised canonically, so only the signature check stands between it and execution.
 var MutantClasses = []string{"payload", "fee-price", "fee-gas", "fee-currency", "memo", "type", "signer-key", "sig-bytes",
-	"no-signatures", "signer-order", "extra-signature", "resigned-by-attacker", "key-algorithm", "btcec-key"}
+	"no-signatures", "signer-order", "extra-signature", "resigned-by-attacker", "key-algorithm", "btcec-key",
+	"sig-bytes-last", "signer-key-last", "btcec-empty-signer"}
+
+// classes that need a transaction with at least two required signers
+var multiSignerClasses = []string{"signer-order", "sig-bytes-last", "signer-key-last"}
+
+var attackerBTCEC *sigKey
+
+// btcecAttackerKey is a real (parseable) BTCEC public key anybody can generate.
+func btcecAttackerKey() *sigKey {
+	if attackerBTCEC == nil {
+		attackerBTCEC = newSigKey(1, "attacker", keys.BTCECSECP)
+	}
+	return attackerBTCEC
+}
 
 func parseSigned(tx []byte) (*action.SignedTx, bool) {
 	st := &action.SignedTx{}
@@ -99,6 +120,38 @@ func Mutate(tx []byte, class string, attacker *Acct, r *rng.R) []byte {
 		st.Signatures[0].Signer.KeyType = keys.SECP256K1
 	case "btcec-key":
 		st.Signatures[0].Signer = keys.PublicKey{KeyType: keys.BTCECSECP, Data: st.Signatures[0].Signer.Data}
+	case "sig-bytes-last":
+		n := len(st.Signatures)
+		if n < 2 || len(st.Signatures[n-1].Signed) == 0 {
+			return nil
+		}
+		sg := append([]byte{}, st.Signatures[n-1].Signed...)
+		sg[r.Intn(len(sg))] ^= 1
+		st.Signatures[n-1].Signed = sg
+	case "signer-key-last":
+		n := len(st.Signatures)
+		if n < 2 {
+			return nil
+		}
+		st.Signatures[n-1] = action.Signature{Signer: attacker.Pub, Signed: attacker.Sign(st.RawTx.RawBytes())}
+	case "btcec-empty-signer":
+		// S24: every address the signatures speak for is blanked in the payload, and every
+		// signature is replaced by a BTCEC public key with bytes that are no signature at all
+		d := st.Data
+		for _, g := range st.Signatures {
+			h, err := g.Signer.GetHandler()
+			if err != nil {
+				return nil
+			}
+			d = bytes.ReplaceAll(d, []byte(`"`+h.Address().String()+`"`), []byte(`""`))
+		}
+		if bytes.Equal(d, st.Data) {
+			return nil
+		}
+		st.Data = append([]byte{}, d...)
+		for i := range st.Signatures {
+			st.Signatures[i] = action.Signature{Signer: btcecAttackerKey().Pub, Signed: []byte("this is not a signature")}
+		}
 	default:
 		return nil
 	}
@@ -109,11 +162,14 @@ func Mutate(tx []byte, class string, attacker *Acct, r *rng.R) []byte {
 // transactions every mutant class is offered to CheckTx (must be rejected) and delivered directly
 // inside A's block (must fail and leave A's state equal to B's, which never saw the mutant).
 func RunSig(seed uint64, histories, blocks, maxTxs int) (*Result, error) {
-	res := NewResult("sig", seed, "case = one generated block history on twin replicas; for valid signed transactions of every kind each of the 14 mutant classes (payload digit, fee price/gas/currency, memo, type, substituted signer key, flipped signature byte, no signatures, swapped signer order, extra signature, re-signed by another key, changed key algorithm tag, BTCEC key) is re-serialised canonically, offered to CheckTx and delivered directly in a block on replica A only; monitor: the unmutated original is admitted, every mutant has CheckTx code != 0, DeliverTx code != 0, and A's application hash equals B's; non-trivial = at least 10 mutants of at least 3 kinds delivered; distinct = SHA-256 of the lines")
+	res := NewResult("sig", seed, "case = one generated block history on twin replicas (plus one scripted replay of the proved BTCEC counterexample); for fresh valid signed transactions of every generated kind each of the 17 mutant classes (payload digit, fee price/gas/currency, memo, type, substituted signer key, flipped signature byte, no signatures, swapped signer order, extra signature, re-signed by another key, changed key algorithm tag, BTCEC tag, flipped byte of the LAST signature, substituted LAST signer, signer addresses blanked + BTCEC keys + junk signatures) is re-serialised canonically, offered to CheckTx and delivered directly in a block on replica A only, classes rotating per kind so that every kind meets every applicable class; the unmutated original is offered to CheckTx on the same state as a positive control; monitor: every mutant has CheckTx code != 0, DeliverTx code != 0, the application stays open, and A's application hash equals B's; non-trivial = at least 10 mutants of at least 3 kinds delivered and at least 3 originals admitted; distinct = SHA-256 of the history lines")
 	root := rng.New(seed*911 + 29)
+	kindRound, pairs := map[string]int{}, map[string]bool{}
+	seenHist := map[[32]byte]bool{}
 	for c := 0; c < histories; c++ {
 		r := root.Fork()
 		hl := &HistoryLog{}
+		hl.Add("sig history seed=%d case=%d", seed, c)
 		p := paramsFor(r, seed*1000+uint64(c))
 		w := NewWorld(p)
 		A, err := NewReplica(w, Identity{Name: "A", Val: w.Vals[0]})
@@ -130,7 +186,7 @@ func RunSig(seed uint64, histories, blocks, maxTxs int) (*Result, error) {
 		g := NewGen(w, r.Fork())
 		attacker := NewAcct(seed, fmt.Sprintf("attacker-%d", c))
 		wt := AllWeights()
-		mutants, kinds := 0, map[string]bool{}
+		mutants, kinds, originalsAdmitted := 0, map[string]bool{}, 0
 	hist:
 		for bi := 0; bi < blocks; bi++ {
 			g.Height = sim.Height + 1
@@ -147,46 +203,80 @@ func RunSig(seed uint64, histories, blocks, maxTxs int) (*Result, error) {
 			// mutants are derived from a fresh valid transaction that is NOT itself in the block,
 			// so that a mutant's acceptance cannot be explained by an index hit
 			var extra [][]byte
-			var extraNote []string
+			var extraNote, extraClass []string
 			for k := 0; k < 3; k++ {
 				base := g.Next(wt)
 				if base.Note == "wrong-signer" || base.Note == "low-gas" {
 					continue
 				}
-				class := MutantClasses[r.Intn(len(MutantClasses))]
-				m := Mutate(base.Bytes, class, attacker, r)
+				// classes rotate per kind, so that every kind meets every applicable class
+				var class string
+				var m []byte
+				for try := 0; try < len(MutantClasses) && m == nil; try++ {
+					class = MutantClasses[kindRound[base.Kind]%len(MutantClasses)]
+					kindRound[base.Kind]++
+					m = Mutate(base.Bytes, class, attacker, r)
+				}
 				if m == nil {
 					continue
 				}
+				pairs[base.Kind+"/"+class] = true
+				res.Distribution["kind:"+base.Kind]++
 				cr := A.CheckTx(m)
 				res.Distribution[fmt.Sprintf("check:%s:%d", class, cr.Code)]++
 				hl.Add("  mutant %s of %s checktx=%d %x", class, base.Kind, cr.Code, m)
+				if A.Crashed {
+					// a mutant that got past Validate far enough to panic: the application closed itself
+					hitOnce(res, "app-closed-by-panic-in-checktx:"+class, c, fmt.Sprintf("%s mutant of %s at height %d", class, base.Kind, b.Height), hl.Lines)
+					break hist
+				}
 				if cr.Code == 0 {
-					res.Hit("mutant-admitted-by-checktx:"+class, c, fmt.Sprintf("%s mutant of %s admitted at height %d", class, base.Kind, b.Height), hl.Lines)
+					hitOnce(res, "mutant-admitted-by-checktx:"+class, c, fmt.Sprintf("%s mutant of %s admitted at height %d", class, base.Kind, b.Height), hl.Lines)
 				}
 				extra = append(extra, m)
 				extraNote = append(extraNote, class+" of "+base.Kind)
+				extraClass = append(extraClass, class)
 				mutants++
 				kinds[base.Kind] = true
+				// positive control: the unmutated transaction on the same state (so a rejected
+				// mutant is not explained by the base being unacceptable anyway)
+				c0 := A.CheckTx(base.Bytes)
+				res.Distribution[fmt.Sprintf("check:original:%d", c0.Code)]++
+				if c0.Code == 0 {
+					originalsAdmitted++
+					res.Counters["originals-admitted"]++
+					res.Distribution["rejected-mutant-of-admitted-original:"+class] += int(cr.Code & 1)
+				}
 			}
 			rb := B.ExecBlock(b)
 			ba := *b
 			ba.Txs = append(append([][]byte{}, b.Txs...), extra...)
 			ra := A.ExecBlock(&ba)
-			if A.Crashed {
-				res.Hit("app-closed-by-panic", c, fmt.Sprintf("block %d with mutants %v", b.Height, extraNote), hl.Lines)
+			if B.Crashed {
+				// the history itself stops the application, mutants or not: not this property's business (C18)
+				res.Distribution["history-closed-the-app-without-mutants"]++
 				break hist
 			}
+			if A.Crashed {
+				hitOnce(res, "app-closed-by-panic-with-mutants", c, fmt.Sprintf("block %d with mutants %v (the twin executed the same block without them)", b.Height, extraNote), hl.Lines)
+				break hist
+			}
+			var executed []string
 			for i := range extra {
 				tr := ra.Txs[len(b.Txs)+i]
 				res.Distribution[fmt.Sprintf("deliver:%d", tr.Code)]++
 				if tr.Code == 0 {
-					res.Hit("mutant-executed-by-delivertx", c, fmt.Sprintf("block %d: %s returned code 0 when delivered directly", b.Height, extraNote[i]), hl.Lines)
+					executed = append(executed, extraClass[i])
+					hitOnce(res, "mutant-executed-by-delivertx:"+extraClass[i], c, fmt.Sprintf("block %d: %s returned code 0 when delivered directly", b.Height, extraNote[i]), hl.Lines)
 				}
 			}
 			cmp := &BlockResult{Height: ra.Height, Txs: ra.Txs[:len(rb.Txs)], Updates: ra.Updates, AppHash: ra.AppHash}
 			if cmp.Transcript() != rb.Transcript() {
-				res.Hit("mutant-changed-state", c, fmt.Sprintf("block %d mutants %v: %s", b.Height, extraNote, diffDumps(B.Dump(), A.Dump())), hl.Lines)
+				sg := "mutant-changed-state"
+				if len(executed) > 0 {
+					sg += ":" + executed[0] // the state change of a mutant already reported as executed
+				}
+				hitOnce(res, sg, c, fmt.Sprintf("block %d mutants %v: %s", b.Height, extraNote, diffDumps(A.Dump(), B.Dump())), hl.Lines)
 				break hist
 			}
 			sim.Absorb(b, rb)
@@ -194,13 +284,224 @@ func RunSig(seed uint64, histories, blocks, maxTxs int) (*Result, error) {
 		A.Close()
 		B.Close()
 		res.Evaluations++
-		if mutants >= 10 && len(kinds) >= 3 {
-			res.DistinctNontrivial++
+		hh := sha256.Sum256([]byte(strings.Join(hl.Lines, "\n")))
+		if !seenHist[hh] {
+			seenHist[hh] = true
+			if mutants >= 10 && len(kinds) >= 3 && originalsAdmitted >= 3 {
+				res.DistinctNontrivial++
+			}
 		}
 		if len(res.Samples) < 2 {
 			res.Samples = append(res.Samples, shortAll(hl.Lines[:min(len(hl.Lines), 25)]))
 		}
 		TruncateAppLog()
 	}
+	res.Counters["kind-class-pairs"] = len(pairs)
+	res.Counters["kinds"] = len(kindRound)
+	if histories > 0 && res.Counters["originals-admitted"] == 0 {
+		return nil, fmt.Errorf("sig: no unmutated transaction was admitted by CheckTx in %d histories: the mutant verdicts would be vacuous", histories)
+	}
+	// the scripted witness of OLP.Props.C04.btcec_counterexample, executed on the implementation
+	if err := S24Probe(seed, res); err != nil {
+		return nil, err
+	}
+	res.Evaluations++
 	return res, nil
+}
+
+// S24Probe replays the proved counterexample `btcec_counterexample` on the real application:
+// block 1 creates a proposal (properly signed); block 2 carries, on replica A only, an
+// EXPIRE_VOTES whose required signer is the empty address, "signed" by a BTCEC public key with
+// bytes that are no signature. The property demands CheckTx != 0, DeliverTx != 0, A == B.
+func S24Probe(seed uint64, res *Result) error {
+	hl := &HistoryLog{}
+	p := SmallParams(seed*1000 + 999)
+	w := NewWorld(p)
+	A, err := NewReplica(w, Identity{Name: "A", Val: w.Vals[0]})
+	if err != nil {
+		return err
+	}
+	defer A.Close()
+	B, err := NewReplica(w, Identity{Name: "B", Val: w.Vals[0]})
+	if err != nil {
+		return err
+	}
+	defer B.Close()
+	A.InitChain()
+	B.InitChain()
+	sim := NewSim(w)
+	a := w.Accts[0]
+	id := pid(fmt.Sprintf("s24-probe-%d", seed))
+	create := Tx(&agov.CreateProposal{ProposalID: id, ProposalType: governance.ProposalTypeGeneral, Headline: "h", Description: "d", Proposer: a.Addr,
+		InitialFunding: action.Amount{Currency: "OLT", Value: *balance.NewAmount(1000000000)}, FundingDeadline: 1 + p.FundingDeadline,
+		FundingGoal: balance.NewAmount(10000000000), VotingDeadline: 1 + p.FundingDeadline + p.VotingDeadline, PassPercentage: 51}, "s24-create", a)
+	b1 := sim.NextBlock([][]byte{create}, BlockOpts{DtSeconds: 1})
+	hl.Add("probe s24 seed=%d", seed)
+	hl.Add("block 1 txs=1")
+	hl.Add("  tx 0 PROPOSAL_CREATE (valid) %x", create)
+	r1 := A.ExecBlock(b1)
+	B.ExecBlock(b1)
+	sim.Absorb(b1, r1)
+	if r1.Txs[0].Code != 0 {
+		return fmt.Errorf("s24 probe: the proposal could not be created: %s", r1.Txs[0].Log)
+	}
+	raw := RawOf(&agov.ExpireVotes{ProposalID: id, ValidatorAddress: keys.Address{}}, DefaultFee(), "s24-unsigned")
+	st := action.SignedTx{RawTx: raw, Signatures: []action.Signature{{Signer: btcecAttackerKey().Pub, Signed: []byte("this is not a signature")}}}
+	unsigned := serSigned(&st)
+	hl.Add("block 2 txs=1 (replica A only)")
+	hl.Add("  tx 0 EXPIRE_VOTES validatorAddress=\"\" signer=BTCEC %x signed=%q : %x", btcecAttackerKey().Pub.Data, "this is not a signature", unsigned)
+	cr := A.CheckTx(unsigned)
+	res.Distribution[fmt.Sprintf("s24-probe:check:%d", cr.Code)]++
+	if cr.Code == 0 {
+		hitOnce(res, "unsigned-tx-admitted-by-checktx:btcec-empty-signer", 0, "EXPIRE_VOTES with the empty address as required signer, a BTCEC public key and 23 bytes of text as signature: CheckTx code 0", hl.Lines)
+	}
+	b2 := sim.NextBlock(nil, BlockOpts{DtSeconds: 1})
+	rb := B.ExecBlock(b2)
+	ba := *b2
+	ba.Txs = [][]byte{unsigned}
+	ra := A.ExecBlock(&ba)
+	res.Distribution[fmt.Sprintf("s24-probe:deliver:%d", ra.Txs[0].Code)]++
+	if ra.Txs[0].Code == 0 {
+		var moved []string
+		for _, kvp := range A.Dump() {
+			if strings.Contains(string(kvp[0]), string(id)) {
+				moved = append(moved, string(kvp[0]))
+			}
+		}
+		d := diffDumps(A.Dump(), B.Dump())
+		same := hex.EncodeToString(ra.AppHash) == hex.EncodeToString(rb.AppHash)
+		hitOnce(res, "unsigned-tx-executed:btcec-empty-signer", 0, fmt.Sprintf("DeliverTx code 0; application hash equal to the replica that never saw it: %v; proposal keys on A: %v; %s", same, moved, d), hl.Lines)
+	}
+	return nil
+}
+
+// ReplaySigHistory re-executes a logged history of the sig engine (lines `sig history seed= case=`,
+// `block …`, `  tx …`, `  mutant …`) on fresh twin replicas with the same monitors.
+func ReplaySigHistory(lines []string, res *Result, out func(string)) error {
+	var seed uint64
+	var c int
+	if _, err := fmt.Sscanf(lines[0], "sig history seed=%d case=%d", &seed, &c); err != nil {
+		return fmt.Errorf("not a sig history: %v", err)
+	}
+	root := rng.New(seed*911 + 29)
+	for i := 0; i < c; i++ {
+		root.Fork()
+	}
+	r := root.Fork()
+	p := paramsFor(r, seed*1000+uint64(c))
+	w := NewWorld(p)
+	A, err := NewReplica(w, Identity{Name: "A", Val: w.Vals[0]})
+	if err != nil {
+		return err
+	}
+	defer A.Close()
+	B, err := NewReplica(w, Identity{Name: "B", Val: w.Vals[0]})
+	if err != nil {
+		return err
+	}
+	defer B.Close()
+	A.InitChain()
+	B.InitChain()
+	sim := NewSim(w)
+	type blk struct {
+		head          string
+		txs, mutants  [][]byte
+		mutantClasses []string
+	}
+	var blocks []*blk
+	for _, l := range lines[1:] {
+		f := strings.Fields(l)
+		switch {
+		case len(f) > 1 && f[0] == "block":
+			blocks = append(blocks, &blk{head: l})
+		case len(f) > 2 && f[0] == "tx" && len(blocks) > 0:
+			b, err := hex.DecodeString(f[len(f)-1])
+			if err != nil {
+				return err
+			}
+			blocks[len(blocks)-1].txs = append(blocks[len(blocks)-1].txs, b)
+		case len(f) > 2 && f[0] == "mutant" && len(blocks) > 0:
+			b, err := hex.DecodeString(f[len(f)-1])
+			if err != nil {
+				return err
+			}
+			blocks[len(blocks)-1].mutants = append(blocks[len(blocks)-1].mutants, b)
+			blocks[len(blocks)-1].mutantClasses = append(blocks[len(blocks)-1].mutantClasses, f[1])
+		}
+	}
+	for _, bl := range blocks {
+		var h int64
+		o := BlockOpts{}
+		var absent, byz string
+		var n int
+		if _, err := fmt.Sscanf(strings.ReplaceAll(strings.ReplaceAll(bl.head, "[ ", "["), " ]", "]"), "block %d dt=%d absent=%s byz=%s", &h, &o.DtSeconds, &absent, &byz); err != nil {
+			// byz may contain spaces ("[1 2]"): fall back to a tolerant parse
+			fmt.Sscanf(bl.head, "block %d dt=%d absent=%s", &h, &o.DtSeconds, &absent)
+			if i := strings.Index(bl.head, "byz="); i >= 0 {
+				byz = bl.head[i+4:]
+				if j := strings.Index(byz, "]"); j >= 0 {
+					byz = byz[:j+1]
+				}
+			}
+		}
+		_ = n
+		for _, x := range strings.FieldsFunc(strings.Trim(absent, "[]"), func(c rune) bool { return c == ',' }) {
+			var i int
+			if _, err := fmt.Sscan(x, &i); err == nil {
+				if o.Absent == nil {
+					o.Absent = map[int]bool{}
+				}
+				o.Absent[i] = true
+			}
+		}
+		for _, x := range strings.Fields(strings.Trim(byz, "[]")) {
+			var i int
+			if _, err := fmt.Sscan(x, &i); err == nil {
+				o.Byzantine = append(o.Byzantine, i)
+			}
+		}
+		b := sim.NextBlock(bl.txs, o)
+		for i, m := range bl.mutants {
+			cr := A.CheckTx(m)
+			out(fmt.Sprintf("block %d mutant %s checktx=%d closed=%v", b.Height, bl.mutantClasses[i], cr.Code, A.Crashed))
+			if A.Crashed {
+				hitOnce(res, "app-closed-by-panic-in-checktx:"+bl.mutantClasses[i], c, fmt.Sprintf("height %d", b.Height), nil)
+				return nil
+			}
+			if cr.Code == 0 {
+				hitOnce(res, "mutant-admitted-by-checktx:"+bl.mutantClasses[i], c, fmt.Sprintf("height %d", b.Height), nil)
+			}
+		}
+		rb := B.ExecBlock(b)
+		ba := *b
+		ba.Txs = append(append([][]byte{}, b.Txs...), bl.mutants...)
+		ra := A.ExecBlock(&ba)
+		out(fmt.Sprintf("block %d txs=%d mutants=%d closed: A=%v B=%v", b.Height, len(bl.txs), len(bl.mutants), A.Crashed, B.Crashed))
+		if B.Crashed {
+			out("the history closes the application without any mutant (not a C04 matter)")
+			return nil
+		}
+		if A.Crashed {
+			hitOnce(res, "app-closed-by-panic-with-mutants", c, fmt.Sprintf("block %d with mutants %v", b.Height, bl.mutantClasses), nil)
+			return nil
+		}
+		var executed []string
+		for i := range bl.mutants {
+			if tr := ra.Txs[len(b.Txs)+i]; tr.Code == 0 {
+				executed = append(executed, bl.mutantClasses[i])
+				hitOnce(res, "mutant-executed-by-delivertx:"+bl.mutantClasses[i], c, fmt.Sprintf("block %d", b.Height), nil)
+			}
+		}
+		cmp := &BlockResult{Height: ra.Height, Txs: ra.Txs[:len(rb.Txs)], Updates: ra.Updates, AppHash: ra.AppHash}
+		if cmp.Transcript() != rb.Transcript() {
+			sg := "mutant-changed-state"
+			if len(executed) > 0 {
+				sg += ":" + executed[0]
+			}
+			hitOnce(res, sg, c, fmt.Sprintf("block %d: %s", b.Height, diffDumps(A.Dump(), B.Dump())), nil)
+			return nil
+		}
+		sim.Absorb(b, rb)
+	}
+	return nil
 }
